@@ -1500,7 +1500,7 @@ func main() {
 	defer ekit.CleanupFiles()
 	vkit.Main(&vkit.Spec{
 		Property: "C18", Level: "model_checking",
-		Rule: "one scenario = engine (core nbio.Engine / nbhttp.Engine) x configuration (epoll mode LT/ET/ONESHOT, NPoller 1-2, 0-2 fake listeners, sync read or async read with pool / goroutine-per-task / inline executor; HTTP: server executor {engine's own pool, user-supplied goroutine-per-job, user-supplied inline} x client executor {engine's own pool, user-supplied, none (SupportServerOnly)}, IOModNonBlocking / IOModMixed) x settled history of 0-3 events (accepted connection, AddConn, connection already ended before Stop by a peer reset of a write backlog / peer FIN / user Close, write backlog, queued Sendfile range with dup'ed descriptor, read deadline, pending / timed / connected async dial, UDP listener with a session; HTTP: injected, accepted or transferred connection, handled request, partial request) x one activity racing with the stopping call (listener hands out one more connection, user Close, peer FIN, peer data / request, callback parked on a latch, dial resolving, deadline firing, AddConn / DialAsync / Write by the user, datagram of a new remote) x stopping call (Stop, Shutdown(Background), Shutdown(live cancel ctx)); every interleaving within the preemption bound; non-trivial = the stopping call was started. SECOND PART (scenario name \"blocking-modes/real-sockets/history-enumeration\", a different and weaker kind of claim): bounded-exhaustive enumeration of HISTORIES, free-running schedule - one case = I/O mode (IOModBlocking, IOModMixed with the history in its blocking-first dispatch, IOModMixed with every connection of the history in the poller half, IOModNonBlocking as control) x WebSocket upgrader variant (plain / BlockingModAsyncWrite / BlockingModTrasferConnToPoller) x every event sequence of length <= 3 (thorough: 4) on <= 2 real AF_UNIX socket-pair connections over {open, keep-alive request, HTTP/1.0 request, partial request, its completion, WebSocket handshake, message echo, close handshake, peer close, peer half-close} x ending (Stop, Shutdown with a live 45 s context, all peers close then Stop); each case is executed ONCE on the real code with real goroutines and the real kernel, schedules are not enumerated",
+		Rule: "one scenario = engine (core nbio.Engine / nbhttp.Engine) x configuration (epoll mode LT/ET/ONESHOT, NPoller 1-2, 0-2 fake listeners, sync read or async read with pool / goroutine-per-task / inline executor; HTTP: server executor {engine's own pool, user-supplied goroutine-per-job, user-supplied inline} x client executor {engine's own pool, user-supplied, none (SupportServerOnly)}, IOModNonBlocking / IOModMixed) x settled history of 0-3 events (accepted connection, AddConn, connection already ended before Stop by a peer reset of a write backlog / peer FIN / user Close, write backlog, queued Sendfile range with dup'ed descriptor, read deadline, pending / timed / connected async dial, UDP listener with a session; HTTP: injected, accepted or transferred connection, handled request, partial request) x one activity racing with the stopping call (listener hands out one more connection, user Close, peer FIN, peer data / request, callback parked on a latch, dial resolving, deadline firing, AddConn / DialAsync / Write by the user, datagram of a new remote) x stopping call (Stop, Shutdown(Background), Shutdown(live cancel ctx)); every interleaving within the preemption bound; non-trivial = the stopping call was started. SECOND PART (scenario name \"blocking-modes/real-sockets/history-enumeration\", a different and weaker kind of claim): bounded-exhaustive enumeration of HISTORIES, free-running schedule - one case = I/O mode (IOModBlocking, IOModMixed with the history in its blocking-first dispatch, IOModMixed with every connection of the history in the poller half, IOModNonBlocking as control) x WebSocket upgrader variant (plain / BlockingModAsyncWrite / BlockingModTrasferConnToPoller) x every event sequence of length <= 3 (thorough: 4) on <= 2 real AF_UNIX socket-pair connections over {open, keep-alive request, HTTP/1.0 request, request whose 70000-byte response is left in flight against a 4096-byte send buffer, partial request, its completion, WebSocket handshake, message echo, close handshake, peer close, peer half-close} x ending (Stop, Shutdown with a live 45 s context, all peers close then Stop); each case is executed ONCE on the real code with real goroutines and the real kernel, schedules are not enumerated",
 		Assumptions: []string{
 			"a connection that a listener's Accept returned before listener.Close() was called is the engine's to close; the fake listener never hands out a connection after Close (what stays queued is the harness's own)",
 			"'close notification delivered before Stop returns' is judged per connection that got an open notification (OnOpen or a dial callback with nil error), counted when the close callback is entered; applied to the core engine only, as the statement says; a second close notification for the same connection is a violation too (it releases the wait group Stop relies on)",
@@ -1508,7 +1508,7 @@ func main() {
 			"time is virtual: no connection deadline fires unless the scenario says so; a stopping call that can only return after a keep-alive / read deadline expires counts as not returning; the nbhttp Shutdown poll ticker is fired whenever the system is idle",
 			"a system call on a closed descriptor number is reported (fd-reuse hazard) even if it fails harmlessly with EBADF in the model",
 			"IOModBlocking / TLS / real net.TCPConn paths are not reachable under the cooperative scheduler (DESIGN §5); in the scheduled scenarios IOModMixed is run with fake connections, which its blocking half rejects",
-			"second part (blocking modes on real sockets): EVERY HISTORY up to the depth is run, NOT every schedule - silence there means 'no history of that shape fails under the schedules the runtime produced', not 'no interleaving fails'. Oracles: the stopping call returns within 60 s and Shutdown with a live context returns nil; afterwards every connection handed to the engine is closed from its peer's point of view, no goroutine running nbio code that did not exist before NewEngine is left, no descriptor opened since then is left, nbio logged no error; and whenever the history is quiet engine.Online() equals the number of connections neither side has closed (the bookkeeping Shutdown's wait loop relies on). Waits of the harness are capped generously (30 s); an expired harness wait marks the run incomplete, it is never a violation. A wait for something that is not going to happen ends early only on positive evidence taken from a goroutine dump (every engine goroutine parked, in 5 consecutive samples over 80 ms / 1 s), never on a short timeout",
+			"second part (blocking modes on real sockets): EVERY HISTORY up to the depth is run, NOT every schedule - silence there means 'no history of that shape fails under the schedules the runtime produced', not 'no interleaving fails'. Oracles: the stopping call returns within 60 s and Shutdown with a live context returns nil; afterwards every connection handed to the engine is closed from its peer's point of view, no goroutine running nbio code that did not exist before NewEngine is left, no descriptor opened since then is left, nbio logged no error; and whenever the history is quiet engine.Online() equals the number of connections neither side has closed (the bookkeeping Shutdown's wait loop relies on). Waits of the harness are capped generously (30 s); an expired harness wait marks the run incomplete, it is never a violation. A wait for something that is not going to happen ends early only on positive evidence taken from a goroutine dump (every engine goroutine parked in 5 consecutive samples 10 ms apart - 25 ms apart for async-write WebSocket configurations, whose close delay the harness sets to 1 ms - confirmed by a direct read of the peer's descriptor), never on a short timeout",
 			"second part: connections are AF_UNIX socket pairs; the server end is a *net.UnixConn handed out by a fake net.Listener to the engine's own accept loop (Config.Listen), so AddConnNonTLSBlocking/-NonBlocking and lmux are driven by nbio itself. websocket.Upgrader transfers only *net.TCPConn to the poller: for the transfer variants the same AF_UNIX socket is handed over under the static type *net.TCPConn (identical layout struct{conn{fd *netFD}}, verified by reflection at start-up; every method nbio calls is the embedded conn's). TLS blocking connections (readTLSConnBlocking) are not covered by any part",
 			"interleavings are sequentially consistent and switch at lock/unlock, atomic, channel, timer, system-call, harness-callback points and at the accesses to the unsynchronised fields listed in cmd/ovgen (shutdown flags, descriptor table, HTTP connection maps); Conn.closed read without the mutex is not a switching point of its own",
 		},
